@@ -43,7 +43,16 @@ func ruleCompactSourceOrder(c *Ctx, r *Reporter) {
 			if !ok {
 				break
 			}
-			if ph.Comment != "level" {
+			// the level counter: the int phi that indexes task.InputFiles (whatever it is called)
+			isLevel := false
+			if ph.Referrers() != nil {
+				for _, ref := range *ph.Referrers() {
+					if lk, ok := ref.(*ssa.Lookup); ok && lk.Index == ssa.Value(ph) && strings.Contains(Path(lk.X), "InputFiles") {
+						isLevel = true
+					}
+				}
+			}
+			if !isLevel {
 				continue
 			}
 			var init, step ssa.Value
